@@ -14,7 +14,7 @@ ORACLE_OF = {
     'C08': ['fail-fast-stops-dispatching', 'fail-fast-without-failure-runs-everything', 'every-started-attempt-finishes', 'brackets'],
     'C03': ['brackets'],
     'C05': ['retry-sequencing', 'retry-not-before-delay', 'others-run-during-retry-delay', 'in-flight-attempts-progress-during-retry-delay'],
-    'C10': ['panic-hook-restored', 'panic-hook-silenced-while-running'],
+    'C10': ['panic-hook-restored', 'panic-hook-silenced-while-running', 'every-started-attempt-finishes'],
     # an attempt that was started is driven to its end (so its after hook runs and its World is handed over) whatever else
     # happens in the run - in particular when another scenario trips fail-fast while it is in flight
     'C09': ['every-started-attempt-finishes'],
@@ -35,6 +35,15 @@ def worlds(tier, focus):
             # serial + concurrent in the same batch
             W.append(('serial+2conc d=%s limit=%s' % (d, limit),
                       World([Scen('s', 'S', 0, None, budget=1, durs=(d[0], 0)), Scen('a', 'C', 0, None, durs=(d[1],)), Scen('b', 'C', 1, 0, durs=(d[2],))], limit)))
+    # one rule holding a serial AND a concurrent scenario: the rule is still ONE bracket
+    for limit in (2, None):
+        W.append(('rule-with-serial-and-concurrent limit=%s' % limit,
+                  World([Scen('s', 'S', 0, 0, durs=(0,)), Scen('a', 'C', 0, 0, durs=(1,)), Scen('b', 'C', 0, None, durs=(0,))], limit)))
+    # the retried attempt of a serial scenario takes a while too: it must still run alone
+    for limit in (2, None):
+        W.append(('serial-retry-takes-time limit=%s' % limit,
+                  World([Scen('s', 'S', 0, None, budget=1, durs=(0, 2), fails=(True, False)), Scen('a', 'C', 0, None, durs=(2,), fails=(False,)),
+                         Scen('b', 'C', 1, 0, durs=(1,), fails=(False,))], limit)))
     for d in ([(1, 1, 1), (2, 1, 0)] if tier != 'thorough' else durs3):
         for limit in (1, 2):
             # a serial scenario first, then more concurrent ones than the limit
@@ -90,6 +99,13 @@ def worlds(tier, focus):
     if focus == 'C10':
         # two runs one after the other in the same process: process-wide state (statics, the panic hook) is carried over
         W.append(('two-runs-in-one-process', World([Scen('a', 'C', 0, None, durs=(0,), fails=(True,)), Scen('b', 'C', 0, None, durs=(1,), fails=(False,))], 2, runs=2)))
+    # fail-fast without a concurrency limit: something must still be queued after the failure (a serial scenario, a late feature)
+    for d in ([(0, 1), (1, 0)] if tier != 'thorough' else [(0, 1), (1, 0), (2, 2), (0, 0)]):
+        W.append(('failfast-unlimited+serial d=%s' % (d,),
+                  World([Scen('a', 'C', 0, None, durs=(d[0],), fails=(True,)), Scen('b', 'C', 0, None, durs=(d[1],), fails=(False,)),
+                         Scen('s', 'S', 1, None, durs=(0,), fails=(False,)), Scen('t', 'S', 1, None, durs=(0,), fails=(False,))], None, fail_fast=True)))
+    W.append(('failfast-unlimited+late-feature',
+              World([Scen('a', 'C', 0, None, durs=(0,), fails=(True,)), Scen('b', 'C', 1, None, durs=(0,), fails=(False,))], None, fail_fast=True, parser=[(0, 0), (3, 1)])))
     for d in ([(0, 0, 0), (1, 0, 0)] if tier != 'thorough' else durs3):
         for limit in (2, 3):
             W.append(('failfast-plain d=%s limit=%s' % (d, limit),
